@@ -158,11 +158,17 @@ func (m *Model) PullPositions(ctx context.Context, ops ...resource.ReadOption) <
 				continue
 			}
 
-			// transform into the correct output format
+			// transform into the correct output format: states ordered by id, exactly as GetPositions lists them
+			// (the stored direction field can differ from the id's direction when an update mask left it out, so
+			// sorting by that field gave streams an order of their own - map order among equal directions)
+			ids := maps.Keys(all)
+			slices.Sort(ids)
 			positions := &traits.OpenClosePositions{
-				States: maps.Values(all),
+				States: make([]*traits.OpenClosePosition, len(ids)),
 			}
-			sortPositions(positions.States)
+			for i, id := range ids {
+				positions.States[i] = all[id]
+			}
 
 			positions.Preset, _ = m.presetForValue(positions.States)
 
